@@ -152,6 +152,24 @@ def check_native_walls(acc, pendulum, z, tr):
                                  got, list(exp))
 
 
+class _Hours(int):
+    pass
+
+
+class _FloatHours(float):
+    pass
+
+
+_ENUMS = {}
+
+
+def _hours_enum(h):
+    import enum
+    if h not in _ENUMS:
+        _ENUMS[h] = enum.IntEnum("Offset", {"ZONE": h}).ZONE
+    return _ENUMS[h]
+
+
 def explore_state(acc, pendulum, z, inst, inter, deep=True, kinds=True):
     """All operations from the model state (inst, z)."""
     tzobj = _tz(pendulum, z)
@@ -181,6 +199,12 @@ def explore_state(acc, pendulum, z, inst, inter, deep=True, kinds=True):
         if us == 0:
             routes.append(("from_timestamp(int,tz=hours)", pendulum.from_timestamp(s, tz=hz)))
         routes.append(("instance(native-utc,tz=hours)->in_tz", pendulum.instance(nu).in_tz(hz)))
+        if z % 3600 == 0:
+            # ... as a member of an IntEnum / an instance of a user subclass of int
+            routes.append(("in_timezone(int-subclass hours)", u.in_timezone(_Hours(z // 3600))))
+            routes.append(("in_tz(IntEnum hours)", u.in_tz(_hours_enum(z // 3600))))
+        else:
+            routes.append(("in_timezone(float-subclass hours)", u.in_timezone(_FloatHours(z / 3600))))
     conv = tzobj.convert(nu)
     routes.append(("Timezone.convert(native)", conv))
     keys = set()
@@ -299,6 +323,14 @@ def explore_state(acc, pendulum, z, inst, inter, deep=True, kinds=True):
                                  type(e).__name__, "an aware DateTime")
                     continue
                 acc.c["transitions"] += 1
+                # ... and as the argument of instance() (what the operators of a subclass instance do with their operand)
+                try:
+                    xi = pendulum.DateTime.instance(x)
+                    goti = (obs.fields(xi), obs.offset_s(xi))
+                except Exception as e:  # noqa: BLE001
+                    goti = f"raises {type(e).__name__}"
+                if goti != (exp_ff, exp_oo):
+                    acc.mismatch(f"foreign-receiver/{rname}", "instance-of-it", dict(base, op=rname, foreign=kname), goti, [exp_ff, exp_oo])
                 if (obs.fields(x), obs.offset_s(x)) != (exp_ff, exp_oo) or type(x) is not pendulum.DateTime:
                     acc.mismatch(f"foreign-receiver/{rname}", "rendering", dict(base, op=rname, foreign=kname),
                                  {"fields": obs.fields(x), "offset": obs.offset_s(x), "type": type(x).__name__},
